@@ -42,6 +42,7 @@ type COS struct {
 	Password   string `json:"password"`
 	ReadSize   int    `json:"read_size"`
 	Netconf    bool   `json:"netconf,omitempty"` // raw leg: start the child through the netconf-subsystem path
+	Reopen     bool   `json:"reopen,omitempty"`  // raw leg: the transport object was opened and closed once before
 	ToSrv      []int  `json:"to_server,omitempty"`
 	FromSrv    []int  `json:"from_server,omitempty"`
 	DataSeed   uint64 `json:"data_seed,omitempty"`
@@ -65,6 +66,7 @@ func genCOS(prop string, legs []string) func(seed uint64, run int, tier string) 
 		sc.DataSeed = r.Uint64()
 		if sc.Leg == "raw" {
 			sc.Netconf = r.IntN(2) == 0
+			sc.Reopen = r.IntN(3) == 0
 			around := func() int {
 				n := pick(r, 1, sc.ReadSize-1, sc.ReadSize, sc.ReadSize+1, 2*sc.ReadSize+3, between(r, 1, 3000))
 				if n > 20000 {
@@ -404,6 +406,26 @@ func runCOSRaw(env *Env, sc *COS, dir string) {
 		env.Res.HarnessError = err.Error()
 
 		return
+	}
+	if sc.Reopen {
+		// an earlier connection through the same transport object
+		os.Setenv("FAKESSH_OUT", out+".first")
+		if err := tr.Open(); err != nil {
+			env.Fail("open-failed", "system", "first Open failed: %v", err)
+
+			return
+		}
+		var first []byte
+		for dl := time.Now().Add(10 * time.Second); !bytes.Contains(first, []byte("READY\n")) && time.Now().Before(dl); {
+			b, err := tr.Read()
+			first = append(first, b...)
+			if err != nil {
+				break
+			}
+		}
+		_ = tr.Close(true)
+		os.Setenv("FAKESSH_OUT", out)
+		env.Probe("transport-object-reopened")
 	}
 	if err := tr.Open(); err != nil {
 		env.Fail("open-failed", "system", "Open failed: %v", err)
